@@ -105,6 +105,14 @@ func logCall(e CallEvent) {
 
 type customPanic struct{ Probe string }
 
+type ptrError struct{ msg string }
+
+func (e *ptrError) Error() string { return "zsim-injected: " + e.msg }
+
+type evilStringer struct{}
+
+func (evilStringer) String() string { panic("zsim-injected: the panic value's String method panics") }
+
 func doPanic(kind, name string) {
 	switch kind {
 	case "string":
@@ -116,6 +124,12 @@ func doPanic(kind, name string) {
 		m[name] = 1 // assignment to entry in nil map
 	case "custom":
 		panic(customPanic{name})
+	case "nilerr":
+		// an error value holding a nil pointer whose Error method dereferences its receiver
+		var e *ptrError
+		panic(error(e))
+	case "evilstringer":
+		panic(evilStringer{})
 	}
 }
 
